@@ -61,6 +61,10 @@ func randomClaims(c *Ctx, kind string, plain bool) (jwt.Claims, nkeys.KeyPair) {
 		if x.Data == nil && c.R.Chance(80) {
 			x.Data = map[string]interface{}{}
 		}
+		if x.Data != nil && c.R.Chance(15) {
+			// a free-form type that equals a reserved kind name only up to letter case: still generic claims
+			x.Data["type"] = []string{"User", "USER", "aCCount", "Operator", "Activation", "Authorization_Request", "Authorization_response", "Cluster", "SERVER"}[c.R.Intn(9)]
+		}
 		cl = x
 	}
 	// keep lists short enough for sort.Sort to be an insertion sort (stable); see JwtModel/Encode.lean
